@@ -15,6 +15,8 @@ import (
 	"context"
 	"encoding/json"
 	"fmt"
+	"github.com/datastax/go-cassandra-native-protocol/frame"
+	"github.com/datastax/go-cassandra-native-protocol/message"
 	"net"
 	"strings"
 	"testing"
@@ -262,6 +264,71 @@ func c16hs2Session(args []string, _ []byte) string {
 	}
 	var closers []func() error
 	switch spec.Scenario {
+	case "handler-inflight":
+		// a request handler (plain or raw) is still running when the connection goes away; the response it then produces
+		// cannot be sent. Everything must still close.
+		_ = srv.Close()
+		started, release := make(chan struct{}, 4), make(chan struct{})
+		hsrv := client.NewCqlServer("127.0.0.1:0", nil)
+		plain := func(request *frame.Frame, conn *client.CqlServerConnection, _ client.RequestHandlerContext) *frame.Frame {
+			if _, ok := request.Body.Message.(*message.Query); !ok {
+				return nil
+			}
+			started <- struct{}{}
+			<-release
+			return frame.NewFrame(request.Header.Version, request.Header.StreamId, &message.VoidResult{})
+		}
+		if spec.Fault == "raw-handler" || spec.DelayUs%2 == 1 {
+			hsrv.RequestRawHandlers = []client.RawRequestHandler{func(request *frame.Frame, conn *client.CqlServerConnection, ctx client.RequestHandlerContext) []byte {
+				f := plain(request, conn, ctx)
+				if f == nil {
+					return nil
+				}
+				enc, _ := refEncode(f)
+				return enc
+			}}
+		} else {
+			hsrv.RequestHandlers = []client.RequestHandler{plain}
+		}
+		if err := hsrv.Start(context.Background()); err != nil {
+			return "FAIL: harness: server start: " + err.Error()
+		}
+		cl := client.NewCqlClient(hsrv.VerifAddr().String(), nil)
+		cl.ReadTimeout = 3 * T
+		var cc *client.CqlClientConnection
+		var sc *client.CqlServerConnection
+		if err := within(T, "BindAndInit", func() (err error) { cc, sc, err = hsrv.BindAndInit(cl, ctx, v, client.ManagedStreamId); return }); err != nil {
+			return "FAIL: harness: bind: " + err.Error()
+		}
+		if _, err := cc.Send(frame.NewFrame(v, client.ManagedStreamId, &message.Query{Query: "slow"})); err != nil {
+			return "FAIL: harness: send: " + err.Error()
+		}
+		select {
+		case <-started:
+		case <-time.After(T):
+			return "FAIL: harness: the request handler was not invoked"
+		}
+		closed := make(chan struct{})
+		go func() {
+			defer close(closed)
+			switch spec.DelayUs % 3 {
+			case 0:
+				_ = sc.Close()
+			case 1:
+				_ = cc.Close()
+				_ = sc.Close()
+			default:
+				_ = hsrv.Close()
+			}
+		}()
+		time.Sleep(20 * time.Millisecond) // let the close get as far as it can while the handler is still running
+		close(release)
+		select {
+		case <-closed:
+		case <-time.After(T):
+			return fmt.Sprintf("FAIL: Close did not return within %v with a request handler still running when it was called (variant %d)", T, spec.DelayUs%3)
+		}
+		closers = append(closers, cc.Close, sc.Close, hsrv.Close)
 	case "accept-pending":
 		// the client is connected to ANOTHER server; this one is asked to accept it and closed while that is pending
 		other := client.NewCqlServer("127.0.0.1:0", nil)
@@ -355,7 +422,7 @@ func c16Handshake2(rt *rapid.T) {
 	defer noteFailure()
 	rec := stats.For("C16")
 	spec := c16hs2Spec{Version: int(rapid.SampledFrom(allVersions).Draw(rt, "version")),
-		Scenario: rapid.SampledFrom([]string{"perform-wrong-credentials", "perform-fault", "perform-fault", "accept-pending"}).Draw(rt, "scenario"),
+		Scenario: rapid.SampledFrom([]string{"perform-wrong-credentials", "perform-fault", "perform-fault", "accept-pending", "handler-inflight", "handler-inflight"}).Draw(rt, "scenario"),
 		DelayUs:  rapid.SampledFrom([]int{0, 50, 300, 1000, 3000, 20000}).Draw(rt, "delayUs")}
 	if spec.Scenario == "perform-fault" {
 		spec.Fault = rapid.SampledFrom([]string{"client-close", "server-conn-close", "ctx-cancel", "server-close"}).Draw(rt, "fault")
